@@ -350,6 +350,11 @@ def run_check(pid, tier, seed):
             total["nontrivial"] |= {("diff", d, i) for i in range(dr["nontrivial"])}
             for b in dr["bad"]:
                 total["rejected"].append(("diff:" + d, b[0], b[1]))
+            for case, msg, ops in dr.get("viol", [])[:3]:
+                path = os.path.join(VERIF, "replays", "%s-diff-%s-%d-case%s.json" % (pid, d, seed, case))
+                json.dump({"property": pid, "differential": d, "case": case, "operations": ops, "violation": msg,
+                           "how_to_replay": "the operation lines are the input of `harness -diff %s` / `driver diff:%s`; run `bin/check %s` with VERIF_SEED=%d" % (d, d, pid, seed)}, open(path, "w"), indent=1)
+                violations.append(("predicate", "container %s: %s" % (d, msg), path, ""))
     elif binp is not None:
         violations.append(("tie", "Lean driver executable missing (setup not run?)", None, ""))
 
@@ -488,16 +493,22 @@ def run_diff(binp, name, tier, seed):
     r1 = subprocess.run([binp, "-diff", name, "-n", str(n), "-seed", str(seed)], capture_output=True, text=True)
     r2 = subprocess.run([DRIVER, "diff:" + name], input=r1.stdout, capture_output=True, text=True)
     bad, cases, distinct, nontriv = [], 0, 0, 0
+    viol = []
     for l in r2.stdout.splitlines():
         if l.startswith("DIFFBAD "):
             _, case, rest = l.split(" ", 2)
             bad.append((case, rest))
+        elif l.startswith("DIFFVIOL "):
+            # the implementation's answer itself is against the specification: a concrete failing input
+            _, case, rest = l.split(" ", 2)
+            ops = [x for x in r1.stdout.splitlines() if x.startswith("DC %s " % case) or x.startswith("D %s " % case)]
+            viol.append((case, rest, ops))
         elif l.startswith("DIFFSUM "):
             kv = dict(t.split("=") for t in l.split()[1:])
             cases, distinct, nontriv = int(kv["cases"]), int(kv["distinct"]), int(kv["nontrivial"])
     if r1.returncode != 0:
         bad.append(("harness", "diff generator failed: " + r1.stderr[-300:]))
-    return {"bad": bad, "cases": cases, "distinct": distinct, "nontrivial": nontriv, "summary": {"cases": cases, "disagreements": len(bad)}}
+    return {"bad": bad, "viol": viol, "cases": cases, "distinct": distinct, "nontrivial": nontriv, "summary": {"cases": cases, "disagreements": len(bad), "specification_violations": len(viol)}}
 
 
 def do_replay(pid, path):
